@@ -79,7 +79,7 @@ def iniq(name, filen, kmax, defs=(), klo=0, khi=None, **kw):
              includes=["models/redir_ini.h"], export_local=True, remove_bodies=["p_list_foreach"], unwindset=uw, object_bits=12,
              funcs=["p_ini_file_new", "p_ini_file_parse", "p_ini_file_sections", "p_ini_file_keys", "p_ini_file_is_key_exists", "p_ini_file_parameter_string",
                     "p_ini_file_parameter_int", "p_ini_file_parameter_boolean", "p_ini_file_parameter_list", "p_ini_file_free"],
-             bounds={"file": {1: "[s] a=1", 2: "[s] a=1 l={1 2} [t] b=2"}[filen], "P_INI_FILE_MAX_LINE": L, "k": "%d..%d, once and from-k-on" % (klo, kmax if khi is None else khi)}, timeout=900, **kw)
+             bounds={"file": {1: "[s] a=1", 2: "[s] a=1 l={1 2} [t] b=2", 3: "[s] a=1 [t] b=2", 4: "[e] [t] b=2 (first section empty)"}[filen], "P_INI_FILE_MAX_LINE": L, "k": "%d..%d, once and from-k-on" % (klo, kmax if khi is None else khi)}, timeout=900, **kw)
 TREE_UNITS = ["src/ptree.c", "src/ptree-bst.c", "src/ptree-rb.c", "src/ptree-avl.c", "src/pmem.c"]
 def tree(tt, nm, n):
     d = n + 2
@@ -153,6 +153,12 @@ def queries0(tier):
                 funcs=["p_mem_set_vtable", "p_mem_restore_vtable", "p_malloc", "p_malloc0", "p_realloc", "p_free"],
                 bounds={"k": "0..5 symbolic, once and from-k-on"}, timeout=600))
     qs.append(iniq("ini_file1", 1, 22))
+    # two-section files in the quick tier: a second '[section]' header after a section that was linked (file 3) / freed because empty (file 4);
+    # k over all requests, split into windows that start at, and contain from-k-on values of, requests outside the known-finding classes
+    for lo, hi in ((0, 11), (12, 23), (24, 36)):
+        qs.append(iniq("ini_file3_k%02d" % lo, 3, 36, klo=lo, khi=hi))
+    for lo, hi in ((0, 12), (13, 26)):
+        qs.append(iniq("ini_file4_k%02d" % lo, 4, 26, klo=lo, khi=hi))
     # demonstrations of the open findings: k restricted to a window around the failing request (the harness assumes the exact class)
     for kf, filen, kmax, kk in (("parse_key_node", 1, 22, 13), ("parse_last_section_node", 1, 22, 14), ("sections_node", 1, 22, 16), ("keys_node", 1, 22, 18),
                                 ("parse_section_node", 2, 50, 23), ("list_node", 2, 50, 47)):
